@@ -38,7 +38,7 @@ CLAIMED = {
          "Exploration.", "Uses the cfg(rsactor_verif) wait_for_snapshot hook."),
  "C16": ("sim-diff", "differential oracle: each scenario executed with direct references and again with every operation routed through randomly derived trait objects; canonical traces must be identical; all views of one actor agree on identity/is_alive",
          "Exploration (exact trace equality per scenario).", "As C01."),
- "C17": ("mt", "real-thread blocking-API monitor: std threads / spawn_blocking / runtime workers call blocking_tell/ask (with and without timeout, deprecated aliases, erased forwarders) against live, gated-full, dying and dead actors; the MT forms of the delivery/order/integrity/dead-letter oracles plus wall-clock deadline checks guarded by a heartbeat; callers attached to runtimes whose workers are all held synchronously or that have no time driver",
+ "C17": ("mt", "real-thread blocking-API monitor: std threads / spawn_blocking / runtime workers call blocking_tell/ask (with and without timeout, deprecated aliases, erased forwarders; timeouts from zero and sub-millisecond to Duration::MAX; untimed calls from runtime-entered threads) against live, gated-full, dying and dead actors; the MT forms of the delivery/order/integrity/dead-letter oracles plus wall-clock deadline checks guarded by a heartbeat; callers attached to runtimes whose workers are all held synchronously or that have no time driver",
          "Exploration on real threads; deadlines restated as bounded progress (timeout + 2 s) under a heartbeat guard; 'never early' is exact (monotonic clock).", "As C01; wall-clock bounds are evaluated only while the heartbeat shows the machine was not stalled (max lateness < 250 ms)."),
  "C18": ("featdiff", "differential oracle across feature builds: harness binaries built against rsactor with different subsets of {tracing, metrics, test-utils, deadlock-detection} run identical seeded cycle-free scenarios; per-scenario canonical trace hashes must equal the default-feature build's; for real-thread workloads (runtimes without a time driver) equal verdict of all trace monitors on default vs all features",
          "Exploration (exact trace equality per scenario and feature set; quick: default, all four, one seed-chosen subset; thorough: all 16 subsets).", "SIM determinism (single thread, virtual clock) makes equality exact; metric values and wall-clock measurements are not part of the trace."),
